@@ -42,6 +42,10 @@ class C13(HistProp):
         bufs, wf, nb, rnd = dec.corpus('quick', rng, rounds=1)
         ins = [b for b in wf + nb[:: (1 if tier == 'thorough' else 7)] + bufs[:300] if len(b) <= 300]
         lines = ['LOAD ' + gen.hexs(b) + ' 0 0 %d' % dec.HUGE for b in ins]
+        # nesting one level beyond the decoder's limit (every opener kind): the load is refused, everything obtained on the way goes back
+        for opener, closer in ((b'\x81', b''), (b'\xc2', b''), (b'\x9f', b''), (b'\xa1\x00', b''), (b'\xbf\x00', b'')):
+            for d in (2048, 2049, 2050):
+                lines.append('LOAD %s 0 0 %d' % (gen.hexs(opener * d + b'\x00'), dec.HUGE))
         # every block obtained during a load that is then refused must still go back through the installed free: single-fault schedules
         strs = [b for b in wf if len(b) <= 40 and any(c >> 5 in (2, 3) for c in b)]
         for b in strs[:: (1 if tier == 'thorough' else 3)]:
